@@ -24,7 +24,7 @@ import (
 
 var reSrcX = regexp.MustCompile(`src\s+comp\s+"x"`)
 
-func vdrTierB(c *Ctx, prop string) {
+func vdrTierB(c *Ctx, prop string, cleanSrcs []string) {
 	r := c.Res
 	nRuns := 2
 	if c.Thorough {
@@ -41,8 +41,15 @@ func vdrTierB(c *Ctx, prop string) {
 	if b, err := os.ReadFile(path.Join(path.Dir(c.Corpus), "C04", "basic_retain_split.mro")); err == nil {
 		srcs = append(srcs, string(b))
 	}
+	// (quick: the programs the Tier-A stream of this check already completed cleanly;
+	// thorough: more candidates are generated and pre-run)
+	for _, src := range cleanSrcs {
+		if len(srcs) < nRuns {
+			srcs = append(srcs, src)
+		}
+	}
 	var cand []*VdrSpec
-	for i := 0; i < 3*nRuns; i++ {
+	for i := 0; i < 3*nRuns && len(srcs) < nRuns; i++ {
 		src, _ := GenVdrProgram(c.Rng, "rolling")
 		if strings.Contains(src, "path") {
 			continue // directory outputs: removed entries cannot be reconstructed from _outs alone
@@ -67,11 +74,11 @@ func vdrTierB(c *Ctx, prop string) {
 		specs = append(specs, s)
 	}
 	if prop == "C14" {
-		nk := 2
+		nk, k0 := 1, int(c.Seed%3)
 		if c.Thorough {
-			nk = 6
+			nk, k0 = 6, 0
 		}
-		for i := 0; i < nk; i++ {
+		for i := k0; i < k0+nk; i++ {
 			spec, res := vdrTBKillOnReport(env, 1+i, []string{"rolling", "post", "strict"}[i%3], r)
 			r.hist("tierB-killwindow-final-" + res.Final)
 			if res.Final != "complete" {
